@@ -53,9 +53,9 @@ let () =
   read_lines stdin (fun line ->
     match split_on '\t' line with
     | id :: "S" :: eng :: script :: _ ->
-      let bounded = (eng = "pebble" || eng = "rocksdb") in
+      let kind = (if eng = "pebble" || eng = "rocksdb" then KBounded else if eng = "mem" then KRadix else KPlain) in
       let steps = List.map step_of (split_on ';' script) in
-      let rs = run_script bounded db_empty steps in
+      let rs = run_script kind db_empty steps in
       let outs = List.filter_map show rs in
       Printf.printf "%s\t%s\n" id (String.concat "|" outs)
     | id :: "X" :: k1 :: k2 :: _ ->
